@@ -246,12 +246,34 @@ func dataKeySites(c *an.Ctx, f *an.Func, tvars map[types.Object]string) []tplSit
 		st := in[b].clone()
 		for _, n := range b.Nodes {
 			for _, call := range an.CallsIn(n) {
-				// runTemplate(T, data) (local closure) or T.Execute(&buf, data)
+				// an execute site: T.Execute(&buf, data), or a call that hands template T and the data map to a
+				// runner — helper(T, data), or a local closure over the data map called with T
 				var tArg ast.Expr
-				if len(call.Args) == 2 && an.ObjOf(info, call.Args[1]) == dataObj {
-					tArg = call.Args[0]
-					if se, ok := an.Unparen(call.Fun).(*ast.SelectorExpr); ok && se.Sel.Name == "Execute" {
-						tArg = se.X
+				hasData := false
+				for _, a := range call.Args {
+					if an.ObjOf(info, a) == dataObj {
+						hasData = true
+					}
+				}
+				if se, ok := an.Unparen(call.Fun).(*ast.SelectorExpr); ok && se.Sel.Name == "Execute" && hasData {
+					tArg = se.X
+				} else {
+					if !hasData {
+						if lit := localClosure(info, f.Decl.Body, call.Fun); lit != nil {
+							ast.Inspect(lit.Body, func(x ast.Node) bool {
+								if id, ok := x.(*ast.Ident); ok && info.Uses[id] == dataObj {
+									hasData = true
+								}
+								return true
+							})
+						}
+					}
+					if hasData {
+						for _, a := range call.Args {
+							if _, ok := tvars[an.ObjOf(info, a)]; ok {
+								tArg = a
+							}
+						}
 					}
 				}
 				if tArg == nil {
@@ -266,6 +288,20 @@ func dataKeySites(c *an.Ctx, f *an.Func, tvars map[types.Object]string) []tplSit
 	}
 	sort.Slice(sites, func(i, j int) bool { return sites[i].pos < sites[j].pos })
 	return sites
+}
+
+// localClosure returns the function literal a local variable (the callee expression fun) is defined as, nil if
+// fun is not such a variable.
+func localClosure(info *types.Info, body ast.Node, fun ast.Expr) *ast.FuncLit {
+	id, ok := an.Unparen(fun).(*ast.Ident)
+	if !ok {
+		return nil
+	}
+	if _, isVar := info.Uses[id].(*types.Var); !isVar {
+		return nil
+	}
+	lit, _ := an.Unparen(an.ResolveLocal(info, body, id)).(*ast.FuncLit)
+	return lit
 }
 
 type kwSpec struct {
@@ -671,6 +707,43 @@ func r049MustValidate(c *an.Ctx) {
 				if o := an.ObjOf(info, rs.X); o != nil {
 					consulted[o] = true
 				}
+			}
+			return true
+		})
+		// a collection handed to a helper that computes the flag from it: `mustValidate = helper(headers, cookies)`
+		// where the helper ranges over the corresponding parameter
+		ast.Inspect(f.Decl.Body, func(nd ast.Node) bool {
+			as, ok := nd.(*ast.AssignStmt)
+			if !ok || len(as.Lhs) != 1 || len(as.Rhs) != 1 {
+				return true
+			}
+			id, ok := as.Lhs[0].(*ast.Ident)
+			call, isCall := an.Unparen(as.Rhs[0]).(*ast.CallExpr)
+			if !ok || !isCall || !strings.Contains(strings.ToLower(id.Name), "mustvalidate") {
+				return true
+			}
+			h := c.FuncOfObj(an.Callee(info, call))
+			if h == nil {
+				return true
+			}
+			var params []types.Object
+			for _, fl := range h.Decl.Type.Params.List {
+				for _, nm := range fl.Names {
+					params = append(params, h.Pkg.TypesInfo.Defs[nm])
+				}
+			}
+			for i, a := range call.Args {
+				o := an.ObjOf(info, a)
+				if o == nil || i >= len(params) {
+					continue
+				}
+				ast.Inspect(h.Decl.Body, func(x ast.Node) bool {
+					if rs, ok := x.(*ast.RangeStmt); ok && an.ObjOf(h.Pkg.TypesInfo, rs.X) == params[i] {
+						consulted[o] = true
+						setsFlag = true
+					}
+					return true
+				})
 			}
 			return true
 		})
